@@ -591,6 +591,9 @@ func (x *Exec) runLoop(fr *frame, li *loopInfo, inc []edge) []edge {
 					s.names[phi.Comment] = v
 				}
 			}
+			if len(lc.Modifies) > 0 || lc.ModNothing {
+				x.loopFrameObligations(fr, &hs, &s, lc, x.loopOpts(fr, &pre), loopName, e.from.Index)
+			}
 			for i, inv := range lc.Invariants {
 				g := x.evalGoalClause(fr, &s, inv, x.loopOpts(fr, &pre))
 				x.vc.oblige(&Obligation{Name: fmt.Sprintf("%s.inv%d.preserved@%d", loopName, i+1, e.from.Index), Kind: "inv-preserved", Func: fr.name,
